@@ -19,7 +19,13 @@ rejection test; generate_random_samples re-draws while its key is in the `sample
 (count) metrics['solution_count'] is enumerator.solution_count(), the value __count_solutions returned; (ranges)
 every random.randrange(0, X) of the enumerator has X = the very shape field that the counting code filled
 (crossings_shape, combinations_shapes, independent_shapes, _preamble_solution_count) with no arithmetic in
-between, so the drawn range equals the counted range, and the counted total is the product the shapes describe.
+between, so the drawn range equals the counted range, and the counted total is the product the shapes describe; the
+level list counted for an independent factor is the list kept for unranking and is the list without excluded levels
+in every pass; (dispatch) counting, drawing and decoding choose between one source index per combination and one per
+trial by the same test, which depends on the segment's own trial count (a flag cached at construction cannot);
+the closed-form product is taken only for uniform completions and uniform copies, otherwise the count is summed over
+all arrangements (checked by role); (filter) no verdict over several derived factors / constraints is overwritten per
+loop iteration (a boolean initialised before a loop, assigned in it without mentioning itself, and read after it).
 """
 NOT_DECIDED = "that the count equals the number of valid sequences and that the candidate-to-sequence map is injective (C05/C13 territory)."
 
